@@ -21,7 +21,8 @@ use vkit::acct::{
 use vkit::pool::{self, PoolOpts};
 use vkit::run::{push_sample, Args, Run, Tier};
 use vkit::world::{
-    all_logs, start_server, status_diff, status_view, Device, SyncResult,
+    all_logs, make_template, start_server, status_diff, status_view, Device,
+    SyncResult, Template,
 };
 use vkit::{clock, fsutil, gen};
 
@@ -96,84 +97,6 @@ struct Scenario {
     clock: ClockPat,
     client_backend: Backend,
     server_db: bool,
-}
-
-#[derive(Clone, Serialize, Deserialize)]
-struct Template {
-    dir: String,
-    account_id: String,
-    default_folder: String,
-    f1: String,
-    s0: String,
-    s1: String,
-    ndev: usize,
-}
-
-async fn make_template(
-    dir: &Path,
-    backend: Backend,
-    server_db: bool,
-    ndev: usize,
-) -> Result<Template> {
-    clock::install();
-    clock::set_device(0);
-    let d1 = dir.join("d0");
-    let mut dev = Dev::create(&d1, backend, "sync-account", true).await?;
-    let default = dev.account.default_folder().await.unwrap();
-    let f1 = dev
-        .account
-        .create_folder(NewFolderOptions::new("folder-one".to_string()))
-        .await?
-        .folder;
-    let (m, s) = gen::secret("note", 0, "s0");
-    let s0 = dev
-        .account
-        .create_secret(
-            m,
-            s,
-            AccessOptions {
-                folder: Some(*default.id()),
-                ..Default::default()
-            },
-        )
-        .await?
-        .id;
-    let (m, s) = gen::secret("login", 0, "s1");
-    let s1 = dev
-        .account
-        .create_secret(
-            m,
-            s,
-            AccessOptions {
-                folder: Some(*f1.id()),
-                ..Default::default()
-            },
-        )
-        .await?
-        .id;
-    let account_id = dev.account_id;
-    // push to a server
-    let server = start_server(&dir.join("server"), server_db, None, None).await?;
-    let device = Device::connect(dev, 0, &server.origin).await?;
-    match device.sync().await {
-        SyncResult::Ok => {}
-        other => return Err(anyhow!("template sync failed: {:?}", other)),
-    }
-    device.close().await;
-    server.stop().await;
-    for k in 1..ndev + 1 {
-        // devices 1..ndev-1 are editors, device ndev is the observer
-        fsutil::copy_dir(&d1, &dir.join(format!("d{}", k)))?;
-    }
-    Ok(Template {
-        dir: dir.to_string_lossy().to_string(),
-        account_id: account_id.to_string(),
-        default_folder: default.id().to_string(),
-        f1: f1.id().to_string(),
-        s0: s0.to_string(),
-        s1: s1.to_string(),
-        ndev,
-    })
 }
 
 fn vid(s: &str) -> VaultId {
